@@ -49,3 +49,47 @@ Example C02_nonvacuous :
   snd (run_woken veq veq 0 (obs_new Shared 0) [WSubscribe; WSubscribe; SPoll 0; SPoll 1; SPoll 0; WSetIfNotEq 0; WSet 5])
   = [0; 1; 0].
 Proof. vm_compute. reflexivity. Qed.
+
+(* ---------------- lock granularity: every schedule, any number of threads ---------------- *)
+From EB Require Import ObsConc ObsConcFacts.
+
+(* the lock protocol: counters = numbers of threads at the corresponding program points, reader /
+   writer exclusion, one holder of the metadata lock.  In particular a setter cannot take the write
+   lock while any poll holds the value read lock (between poll_value_locked and its last step), and
+   close cannot take the metadata lock while a poll is between taking it and releasing it. *)
+Theorem C02_conc_lock_invariant :
+  forall (V : Type) (fixed : bool) (v : V) ver clones subs pending ops sched,
+    start_ok ver clones subs pending ops ->
+    let s := run_sched fixed (cinit v ver clones subs pending ops) sched in
+    c_readers s = count_pcs (@holds_read V) s /\
+    (c_writer s = true <-> count_pcs (@holds_write V) s = 1) /\
+    (c_writer s = false <-> count_pcs (@holds_write V) s = 0) /\
+    (c_meta s = true <-> count_pcs (@holds_meta V) s = 1) /\
+    (c_meta s = false <-> count_pcs (@holds_meta V) s = 0) /\
+    (c_writer s = true -> c_readers s = 0).
+Proof. intros V fixed v ver clones subs pending ops sched; apply lock_invariant. Qed.
+Print Assumptions C02_conc_lock_invariant.
+
+(* in every reachable micro-state: a subscriber registered as a waker and not yet woken has nothing
+   new to see (observed = current version, stream open); a poll that decided Pending has its waker
+   registered or already woken; subscribers pending before the threads started are still
+   registered or have been woken *)
+Theorem C02_conc_no_lost_wakeup :
+  forall (V : Type) (fixed : bool) (v : V) ver clones subs pending ops sched,
+    start_ok ver clones subs pending ops ->
+    let s := run_sched fixed (cinit v ver clones subs pending ops) sched in
+    (forall k, In k (c_wakers s) -> c_ver s <> 0 /\ nth_error (c_subs s) k = Some (c_ver s)) /\
+    (forall t th k, nth_error (c_threads s) t = Some th -> t_op th = CPoll k ->
+       (t_pc th = PPollDecided Pending \/ t_pc th = PDone (Some Pending) None None) ->
+       In k (c_wakers s) \/ In k (c_woken s)) /\
+    (forall k, In k pending -> In k (c_wakers s) \/ In k (c_woken s)).
+Proof. intros V fixed v ver clones subs pending ops sched; apply conc_no_lost_wakeup. Qed.
+Print Assumptions C02_conc_no_lost_wakeup.
+
+(* every set and the close move the whole waker list to the woken list *)
+Theorem C02_conc_wake_all :
+  forall (V : Type) (fixed : bool) (s : cstate V) t s',
+    cstep fixed s t = Advanced s' -> c_ver s' <> c_ver s ->
+    c_wakers s' = [] /\ c_woken s' = c_woken s ++ c_wakers s.
+Proof. intros V fixed s t s'; apply conc_wake_all. Qed.
+Print Assumptions C02_conc_wake_all.
